@@ -196,6 +196,12 @@ pub mod rt {
     pub fn arg_tuple(j: usize) -> (u32, String) {
         (arg_u32(j), arg_string(j))
     }
+    pub fn arg_pair(j: usize) -> (u32, u32) {
+        (arg_u32(j), arg_u32b(j))
+    }
+    pub fn arg_pair_si(j: usize) -> (String, i64) {
+        (arg_string(j), arg_i64(j))
+    }
     pub fn arg_opt_u32(j: usize) -> Option<u32> {
         if j % 3 == 0 {
             None
